@@ -9,6 +9,7 @@ import Rare.Proofs.C01Classify
 import Rare.Proofs.C01Trim
 import Rare.Proofs.C01Summary
 import Rare.Proofs.C01Flags
+import Rare.Proofs.C01Unbuffered
 import Rare.Model.C01Source
 import Rare.Gen.C01
 /-!
@@ -561,6 +562,99 @@ theorem cli_final (f : Flags) (input : Input) (cfg : PipeCfg) (hc : configure f 
   · exact pipeline_reaches_end (clsOf e) hR (by omega) (by omega) _ s0 s0 .refl (Nat.le_refl _)
   · intro s hr hd
     obtain ⟨h1, h2, h3, h4, h5, _⟩ := pipeline_final_classified e cfg.R cfg.B cfg.K cfg.W cfg.batch hW datas timer hnp hr hd
+    exact ⟨h1, h2, h3, h4, h5⟩
+
+/-! ## An unbuffered batch channel (`--batch-buffer 0`, accepted by the command line)
+
+`Model/C01Unbuffered.lean`: with `make(chan InputBatch, 0)` a batch goes from a reader to a worker in one
+rendezvous (`Step0.handoff`); every other transition is the buffered system's. -/
+
+/-- Every execution with an unbuffered batch channel is an execution of the buffered system with capacity 1 (a
+    hand-over = a send immediately followed by the receive), so every reachable state satisfies the conservation
+    invariant; the channel is empty in every state. -/
+theorem pipeline_unbuffered_refines (cls : α → Cls) (R K W : Nat) (inputs : List (List (List α))) {s : St α}
+    (h : Reach0 cls R K (init inputs W) s) :
+    s.c = [] ∧ Reach cls R 1 K (init inputs W) s ∧ Inv cls 1 K (inputs.flatMap List.flatten) s := by
+  obtain ⟨hc, hr⟩ := reach0_reach (by simp [init]) h
+  exact ⟨hc, hr, pipeline_invariant cls R 1 K W inputs hr⟩
+
+/-- No deadlock and termination with an unbuffered batch channel: while the consumer has not seen the end of the
+    stream some goroutine (or a reader/worker pair) can move, and every move decreases the measure. -/
+theorem pipeline_unbuffered_progress (cls : α → Cls) {R K : Nat} (hR : 1 ≤ R) (hK : 1 ≤ K) (W : Nat)
+    (inputs : List (List (List α))) {s : St α} (h : Reach0 cls R K (init inputs W) s) (hd : s.consDone = false) :
+    ∃ s', Step0 cls R K s s' ∧ measure s' < measure s := by
+  have hc := (reach0_reach (by simp [init]) h).1
+  obtain ⟨s', hs⟩ := progress0 (cls := cls) hR hK hc hd
+  exact ⟨s', hs, step0_measure hs hc⟩
+
+/-- `pipeline_final` for the unbuffered batch channel: in every terminal state the consumer holds exactly the
+    sequential multiset of matches and the counters are the sequential class counts. -/
+theorem pipeline_unbuffered_final (cls : α → Cls) (R K W : Nat) (hW : 1 ≤ W) (inputs : List (List (List α))) {s : St α}
+    (h : Reach0 cls R K (init inputs W) s) (hd : s.consDone = true) :
+    let all := inputs.flatMap List.flatten
+    s.consumed.Perm (all.filter (isMatched cls)) ∧
+    s.nRead = all.length ∧
+    s.nMatched = (all.filter (isMatched cls)).length ∧
+    s.nIgnored = (all.filter (isIgnored cls)).length ∧
+    s.nRead = s.nMatched + s.nIgnored + (all.filter fun x => cls x = .unmatched).length :=
+  pipeline_final cls R 1 K W hW inputs (reach0_reach (by simp [init]) h).2 hd
+
+/-- Some execution with an unbuffered batch channel reaches the end of the stream (with
+    `pipeline_unbuffered_progress`: every maximal one does). -/
+theorem pipeline_unbuffered_reaches_end {β : Type} (cls : β → Cls) {R K : Nat} (hR : 1 ≤ R) (hK : 1 ≤ K) (W : Nat)
+    (inputs : List (List (List β))) :
+    ∀ (n : Nat) (s : St β), Reach0 cls R K (init inputs W) s → measure s ≤ n →
+      ∃ s', Reach0 cls R K (init inputs W) s' ∧ s'.consDone = true := by
+  intro n
+  induction n with
+  | zero =>
+    intro s hr hm
+    cases hd : s.consDone with
+    | true => exact ⟨s, hr, hd⟩
+    | false =>
+      have hc := (reach0_reach (by simp [init]) hr).1
+      obtain ⟨s', hs⟩ := progress0 (cls := cls) hR hK hc hd
+      have := step0_measure hs hc
+      omega
+  | succ n ih =>
+    intro s hr hm
+    cases hd : s.consDone with
+    | true => exact ⟨s, hr, hd⟩
+    | false =>
+      have hc := (reach0_reach (by simp [init]) hr).1
+      obtain ⟨s', hs⟩ := progress0 (cls := cls) hR hK hc hd
+      have := step0_measure hs hc
+      exact ih s' (.step hr hs) (by omega)
+
+/-- Non-vacuity: two sources, two workers, unbuffered: a terminal state exists and carries the sequential result. -/
+example : ∃ s, Reach0 (fun n : Nat => if n % 2 = 0 then Cls.matched else Cls.unmatched) 2 5
+    (init [[[2, 3], [4]], [[6]]] 2) s ∧ s.consDone = true ∧ s.consumed.Perm [2, 4, 6] := by
+  obtain ⟨s, hr, hd⟩ := pipeline_unbuffered_reaches_end (fun n : Nat => if n % 2 = 0 then Cls.matched else Cls.unmatched)
+    (R := 2) (K := 5) (by decide) (by decide) 2 [[[2, 3], [4]], [[6]]] _ _ .refl (Nat.le_refl _)
+  exact ⟨s, hr, hd, (pipeline_unbuffered_final _ 2 5 2 (by decide) _ hr hd).1⟩
+
+/-- `cli_final` for the remaining accepted value `--batch-buffer 0`: some execution reaches the end of the stream
+    and every execution that does ends with the sequential outcome.  Together with `cli_final`: for EVERY flag set
+    the command line accepts. -/
+theorem cli_final_unbuffered (f : Flags) (input : Input) (cfg : PipeCfg) (hc : configure f input = .ok cfg)
+    (hB : f.batchBuffer = 0) (e : Extractor) (datas : List Bytes) (timer : Nat → Nat → Bool)
+    (hnp : NoPanic e (allLines datas)) :
+    let s0 := init ((datas.zipIdx 0).map fun p =>
+        (run cfg.batch ((linesOf p.2 p.1).map fun l => (l, timer p.2 l.num))).map (·.lines)) cfg.W
+    cfg.B = 0 ∧ (∃ s, Reach0 (clsOf e) cfg.R cfg.K s0 s ∧ s.consDone = true) ∧
+    ∀ s, Reach0 (clsOf e) cfg.R cfg.K s0 s → s.consDone = true →
+      s.consumed.Perm ((allLines datas).filter (outcomeIs e .matched)) ∧
+      (∀ l ∈ s.consumed, processLine e l = .ok (.matched (keyOf e l)) ∧ keyOf e l ≠ []) ∧
+      s.nRead = (allLines datas).length ∧
+      s.nMatched = ((allLines datas).filter (outcomeIs e .matched)).length ∧
+      s.nIgnored = ((allLines datas).filter (outcomeIs e .ignored)).length := by
+  obtain ⟨_, _, hBe, hK, hW, _, _, hR, _, _⟩ := flags_config f input cfg hc
+  intro s0
+  refine ⟨by omega, ?_, ?_⟩
+  · exact pipeline_unbuffered_reaches_end (clsOf e) hR (by omega) cfg.W _ _ s0 .refl (Nat.le_refl _)
+  · intro s hr hd
+    have hr1 := (reach0_reach (by simp [s0, init]) hr).2
+    obtain ⟨h1, h2, h3, h4, h5, _⟩ := pipeline_final_classified e cfg.R 1 cfg.K cfg.W cfg.batch hW datas timer hnp hr1 hd
     exact ⟨h1, h2, h3, h4, h5⟩
 
 /-! ## The source the models were written against (translator tie, `harness/extract/c01.go`) -/
